@@ -251,6 +251,13 @@ def _field_path(b, op, depth=0):
             s = _field_path(b, payload["op"], depth + 1)
             if s:
                 sub = s
+        elif kind == "assign" and payload["k"] == "agg" and payload.get("ak") == "tuple":
+            # `let (a, b) = match .. { .. => (x, y) }`: component i of the tuple comes from operand i
+            fi = [e["f"] for e in p["p"] if isinstance(e, dict) and "f" in e and "n" not in e]
+            if len(fi) == 1 and fi[0] < len(payload["ops"]):
+                s = _field_path(b, payload["ops"][fi[0]], depth + 1)
+                if s:
+                    sub = s
         elif kind == "call":
             n = strip_generics(callee_def(payload))
             if re.search(r"(From::from|Into::into|TryFrom::try_from|Result::unwrap|Result::expect)$", n):
@@ -281,6 +288,16 @@ def _agg_fields_reached(b, local):
                         p = op_place(o)
                         if p is not None and p["l"] == l and i < len(r["fields"]):
                             out.add(r["fields"][i])
+                elif r["k"] == "agg" and r.get("ak") == "tuple" and not s["p"]["p"]:
+                    # through a tuple: follow the same component out again
+                    for i, o in enumerate(r["ops"]):
+                        p = op_place(o)
+                        if p is not None and p["l"] == l and not p["p"]:
+                            for u2 in flow.uses(b, s["p"]["l"]):
+                                if u2[0] == "stmt" and u2[3]["k"] == "assign" and u2[3]["r"]["k"] in ("use", "cast") and not u2[3]["p"]["p"]:
+                                    q = op_place(u2[3]["r"]["op"])
+                                    if q is not None and q["l"] == s["p"]["l"] and [e.get("f") for e in q["p"] if isinstance(e, dict)] == [i]:
+                                        work.append(u2[3]["p"]["l"])
                 elif r["k"] in ("use", "cast") or (r["k"] == "binop" and r["op"] in ("Ne", "Eq", "Gt")):
                     if not s["p"]["p"]:
                         work.append(s["p"]["l"])
